@@ -78,6 +78,13 @@ def body_history(desc, F, *args):
     kinds = desc["ops"]
     for i, kind in enumerate(kinds):
         model = _apply(g, model, kind, _triple(F, args, i))
+    if desc.get("observe") == "light":
+        # no probe triple: content as a whole (iteration and len) against the model
+        if len(g) != len(model):
+            return "len differs"
+        if not same_set(list(g), model):
+            return "iteration differs"
+        return None
     return _observe(g, model, _triple(F, args, len(kinds)))
 
 
@@ -169,10 +176,11 @@ def obligations(tier, seed):
     rnd = random.Random(seed)
     obs = []
 
-    def hist(store, ops, budget):
+    def hist(store, ops, budget, light=False):
         obs.append(dict(
-            oid="hist/%s/%s" % (store, "-".join(ops)), family="history",
-            desc={"store": store, "ops": list(ops)}, sig=_sig(3 * (len(ops) + 1)), budget=budget))
+            oid="hist%s/%s/%s" % ("-light" if light else "", store, "-".join(ops)), family="history",
+            desc={"store": store, "ops": list(ops), "observe": "light" if light else "full"},
+            sig=_sig(3 * (len(ops) + (0 if light else 1))), budget=budget))
 
     for store in STORES:
         for k in (1, 2):
@@ -189,6 +197,10 @@ def obligations(tier, seed):
             core = [o for o in cheap if o[1] in CORE_KINDS and o[2] in CORE_KINDS]
             rest = [o for o in cheap if o not in core]
             sel = core + rnd.sample(rest, 12)
+            # ... but they are checked with the light observation (whole content, no probe patterns), which is cheap
+            for o in k3:
+                if o[1] in grow and o[2] in grow:
+                    hist(store, o, 200, light=True)
         else:
             sel = k3
         for ops in sel:
@@ -232,7 +244,7 @@ def obligations(tier, seed):
 def bounds(tier):
     return {
         "history": "every op-kind sequence with k<=2 (13 kinds), k=3 starting with add (%s), %s; 2 stores; terms unbounded"
-        % ("those with a remove among ops 2-3: core kinds + 12 seeded" if tier == "quick" else "all 169", "no k=4" if tier == "quick" else "k=4 seeded sample of 60"),
+        % ("with a remove among ops 2-3: core kinds + 12 seeded, full observation; three growing ops: all 16, whole-content observation only" if tier == "quick" else "all 169", "no k=4" if tier == "quick" else "k=4 seeded sample of 60"),
         "binop": "operands of <=2 symbolic triples (thorough: <=3)",
         "itermut": "n=2 symbolic triples, <=1 mutation (thorough: <=2) among <=3 next() calls, Memory store",
         "outside": "longer histories, quoted/formula contexts, BerkeleyDB, more than 4 triples in the graph",
